@@ -17,6 +17,14 @@ RULE = ("one-dimensional sweeps (exhaustive): each of the six timestamps over th
         "class, skew, syntax) tuples where at least one timestamp is not at its baseline position")
 TRUSTED = ["source-to-Gallina translator harness/py2coq.py + coq/theories/Base/Py.v (validate_on_or_after / validate_before are "
            "re-translated from the source text on every run; c05_source_* prove them equal to the model)",
+           "source-to-Gallina translator v2 harness/py2coq2.py + coq/theories/Base/Py2.v (semantics and trusted base: "
+           "notes/translator_v2.md); re-translated from the source text on every run into coq/gen/C05Src2.v: "
+           "validate.validate_on_or_after, validate.validate_before, time_util.later_than, response.authn_response, "
+           "AuthnResponse.authn_statement_ok, AuthnResponse.condition_ok, AuthnResponse._bearer_confirmed, "
+           "AuthnResponse.session_info; into coq/gen/C05Src2v.v: StatusResponse.issue_instant_ok after the call-shape "
+           "rewrite X.timetuple() -> timetuple(X) (harness/c05.py:_timetuple_shape); c05_source2_* (C05/Property.v, proofs in "
+           "C05/Source2.v) prove each equal to the model function / stage of Model.accept it mirrors, "
+           "c05_source2_accept_by_parts that the stages compose to Model.accept",
            "xmlsec1 stand-in", "renderer harness/render.py", "virtual clock harness/env.py (patches saml2.time_util.time/datetime)"]
 ASSUMPTIONS = ["timestamps later than 1970 + skew", "clock reads whole seconds (utc_now truncates)",
                "bearer SubjectConfirmationData with NotBefore also carries NotOnOrAfter (completeness half only)"]
@@ -26,18 +34,161 @@ NOW = spaccept.NOW
 
 def regenerate_tables(ctx):
     """Translator: validate.validate_on_or_after / validate_before as they read NOW -> coq/gen/C05Src.v;
-    C05/Source.v proves them equal to the model (clock and timestamp parser are parameters)."""
+    C05/Source.v proves them equal to the model (clock and timestamp parser are parameters).
+    Translator v2: the functions of source2_items() -> coq/gen/C05Src2.v and issue_instant_ok (one call shape
+    rewritten) -> coq/gen/C05Src2v.v; C05/Source2.v proves each equal to the model function it mirrors."""
     import os
-    from harness import common, py2coq
+    from harness import common, py2coq, py2coq2
     calls = {"time_util.utc_now": lambda a: "now", "calendar.timegm": lambda a: "(to_secs %s)" % a[0],
              "time_util.str_to_time": lambda a: a[0], "time.strftime": lambda a: "PNone", "time.gmtime": lambda a: "PNone"}
     ex = [("now", "pyval"), ("to_secs", "pyval -> pyval")]
     src = os.path.join(env.SRC, "saml2", "validate.py")
-    return py2coq.regenerate(os.path.join(common.GEN, "C05Src.v"), [
+    v1 = py2coq.regenerate(os.path.join(common.GEN, "C05Src.v"), [
         (src, "validate_on_or_after", {"name": "src_validate_on_or_after", "params": ["not_on_or_after", "slack"],
                                        "extra_params": ex, "calls": calls}),
         (src, "validate_before", {"name": "src_validate_before", "params": ["not_before", "slack"],
                                   "extra_params": ex, "calls": calls})])
+    v2 = py2coq2.regenerate(os.path.join(common.GEN, "C05Src2.v"), source2_items())
+    v2v = regenerate_issue_instant(os.path.join(common.GEN, "C05Src2v.v"))
+    out = dict(v1)
+    out.update({"changed": bool(v1["changed"]) or bool(v2["changed"]) or bool(v2v["changed"]),
+                "obligations": v1["obligations"] + v2["obligations"] + v2v["obligations"],
+                "discharged": v1["discharged"] + v2["discharged"] + v2v["discharged"],
+                "untranslatable": list(v1.get("untranslatable", [])) + list(v2["untranslatable"]) + list(v2v["untranslatable"]),
+                "translated": list(v1.get("translated", [])) + list(v2["translated"]) + list(v2v["translated"]),
+                "source": v1, "source2": v2, "source2v": v2v, "functions": SOURCE2_FUNCTIONS})
+    return out
+
+
+# ------------------------------------------------------------------------------ translator v2: specs
+SOURCE2_FUNCTIONS = ["validate.py:validate_on_or_after", "validate.py:validate_before", "time_util.py:later_than",
+                     "response.py:authn_response", "response.py:StatusResponse.issue_instant_ok",
+                     "response.py:AuthnResponse.authn_statement_ok", "response.py:AuthnResponse.condition_ok",
+                     "response.py:AuthnResponse._bearer_confirmed", "response.py:AuthnResponse.session_info"]
+# exception classes the translated functions raise (all direct children of Exception as far as `except` clauses of
+# these functions can tell: the only clauses are `except Exception`, `except KeyError`, `except TypeError`)
+EXC_PARENTS = {"ResponseLifetimeExceed": ["Exception"], "ToEarly": ["Exception"], "NotValid": ["Exception"],
+               "StatusInvalidAuthnResponseStatement": ["Exception"]}
+
+
+def source2_items():
+    """[(source file, qualified name, spec)] for harness/py2coq2.py.  The clock (time_util.utc_now), the time-stamp
+    readers (calendar.timegm . str_to_time: [to_secs]; str_to_time as a comparable struct_time: [parse]; time.gmtime)
+    and the calls that leave the anchored code (keyswv, for_me, valid_address, issuer, authn_info, ...) are extra
+    parameters of the Gallina definitions; the three methods call the TRANSLATED validate_* / later_than, so the
+    theorems about them assume nothing about those."""
+    import os
+    sdir = os.path.join(env.SRC, "saml2")
+    val, tu, rsp = (os.path.join(sdir, f) for f in ("validate.py", "time_util.py", "response.py"))
+    clock = [("now", "pyval"), ("to_secs", "pyval -> pyval")]
+    cmpt = [("parse", "pyval -> pyval"), ("gmtime", "pyval -> pyval")]
+    vcalls = {"time_util.utc_now": lambda a: "now", "calendar.timegm": lambda a: "(to_secs %s)" % a[0],
+              "time_util.str_to_time": lambda a: a[0], "time.strftime": lambda a: "PNone", "time.gmtime": lambda a: "PNone",
+              "%": lambda a: "PNone"}      # the message texts are dropped (their operands are still evaluated)
+    voa = lambda a: "(src2_validate_on_or_after now to_secs %s %s)" % tuple(a)  # noqa: E731  (the translated callees)
+    vb = lambda a: "(src2_validate_before now to_secs %s %s)" % tuple(a)  # noqa: E731
+    lt = lambda a: "(src2_later_than parse gmtime %s %s)" % tuple(a)  # noqa: E731
+
+    def ctor(a, kw):   # AuthnResponse(...): the arguments the constructor is called with, as a dict
+        return "(p2_mkdict [%s])" % "; ".join(['("arg%d", %s)' % (i, t) for i, t in enumerate(a)] +
+                                              ['("%s", %s)' % (k, t) for k, t in kw.items()])
+    return [
+        (val, "validate_on_or_after", {"name": "src2_validate_on_or_after", "params": ["not_on_or_after", "slack"],
+                                       "extra_params": clock, "calls": vcalls, "exc_parents": EXC_PARENTS}),
+        (val, "validate_before", {"name": "src2_validate_before", "params": ["not_before", "slack"],
+                                  "extra_params": clock, "calls": vcalls, "exc_parents": EXC_PARENTS}),
+        (tu, "later_than", {"name": "src2_later_than", "params": ["after", "before"], "extra_params": cmpt,
+                            "calls": {"str_to_time": lambda a: "(parse %s)" % a[0],
+                                      "time.gmtime": lambda a: "(gmtime %s)" % a[0]}}),
+        # skew plumbing: the factory (int() is external: int(None) raises TypeError, which the embedding's own
+        # int() does not model)
+        (rsp, "authn_response", {
+            "name": "src2_authn_response",
+            "params": ["conf", "return_addrs", "outstanding_queries", "timeslack", "asynchop", "allow_unsolicited",
+                       "want_assertions_signed", "conv_info"],
+            "extra_params": [("security_context", "pyval -> pyval"), ("int_", "pyval -> pyval")],
+            "calls": {"security_context": lambda a: "(security_context %s)" % a[0], "int": lambda a: "(int_ %s)" % a[0],
+                      "AuthnResponse": ctor}}),
+        (rsp, "AuthnResponse.authn_statement_ok", {
+            "name": "src2_authn_statement_ok", "params": ["self", "optional"], "extra_params": clock,
+            "returns_state": ["self"], "exc_parents": EXC_PARENTS,
+            "calls": {"validate_on_or_after": voa, "calendar.timegm": lambda a: "(to_secs %s)" % a[0],
+                      "time_util.str_to_time": lambda a: a[0]}}),
+        (rsp, "AuthnResponse.condition_ok", {
+            "name": "src2_condition_ok", "params": ["self", "lax"],
+            "extra_params": clock + cmpt + [("keyswv", "pyval -> pyval"), ("for_me", "pyval -> pyval -> pyval"),
+                                            ("XSI_TYPE", "pyval")],
+            "returns_state": ["self"], "exc_parents": EXC_PARENTS, "globals": {"XSI_TYPE": "XSI_TYPE"},
+            "calls": {"validate_on_or_after": voa, "validate_before": vb, "later_than": lt,
+                      "conditions.keyswv": lambda a: "(keyswv v_conditions)",
+                      "for_me": lambda a: "(for_me %s %s)" % tuple(a)}}),
+        (rsp, "AuthnResponse._bearer_confirmed", {
+            "name": "src2_bearer_confirmed", "params": ["self", "data"],
+            "extra_params": clock + cmpt + [("valid_address", "pyval -> pyval")],
+            "returns_state": ["self"], "exc_parents": EXC_PARENTS,
+            "calls": {"validate_on_or_after": voa, "validate_before": vb, "later_than": lt,
+                      "valid_address": lambda a: "(valid_address %s)" % a[0]}}),
+        (rsp, "AuthnResponse.session_info", {
+            "name": "src2_session_info", "params": ["self"],
+            "extra_params": [("issuer", "pyval -> pyval"), ("authz_decision_info", "pyval -> pyval"),
+                             ("authn_info", "pyval -> pyval")],
+            "exc_parents": EXC_PARENTS,
+            "calls": {"self.issuer": lambda a: "(issuer v_self)",
+                      "self.authz_decision_info": lambda a: "(authz_decision_info v_self)",
+                      "self.authn_info": lambda a: "(authn_info v_self)"}}),
+    ]
+
+
+def _timetuple_shape():
+    """One call shape that py2coq2 refuses (a method call on the result of a call), rewritten into a call of a spec'd
+    external before translation:  EXPR(...).timetuple()  ->  timetuple(EXPR(...)).  It concerns only HOW the external
+    datetime.timetuple is reached, never a decision of the function."""
+    import ast
+
+    class _Shape(ast.NodeTransformer):
+        def visit_Call(self, node):
+            self.generic_visit(node)
+            f = node.func
+            if isinstance(f, ast.Attribute) and f.attr == "timetuple" and isinstance(f.value, ast.Call) \
+                    and not node.args and not node.keywords:
+                g = ast.copy_location(ast.Name(id="timetuple", ctx=ast.Load()), f)
+                return ast.copy_location(ast.Call(func=g, args=[f.value], keywords=[]), node)
+            return node
+    return _Shape()
+
+
+def issue_instant_spec():
+    def days(name):
+        return lambda a, kw: "(%s %s)" % (name, kw["days"]) if not a and list(kw) == ["days"] else "PErr"
+    return {"name": "src2_issue_instant_ok", "params": ["self"],
+            "extra_params": [("in_a_while", "pyval -> pyval"), ("a_while_ago", "pyval -> pyval"),
+                             ("shift_time", "pyval -> pyval -> pyval"), ("timetuple", "pyval -> pyval"),
+                             ("parse", "pyval -> pyval")],
+            "calls": {"time_util.time_in_a_while": days("in_a_while"), "time_util.time_a_while_ago": days("a_while_ago"),
+                      "time_util.shift_time": lambda a: "(shift_time %s %s)" % tuple(a),
+                      "timetuple": lambda a: "(timetuple %s)" % a[0], "str_to_time": lambda a: "(parse %s)" % a[0]}}
+
+
+def regenerate_issue_instant(gen_path):
+    """StatusResponse.issue_instant_ok -> coq/gen/C05Src2v.v through py2coq2.translate_def after _timetuple_shape
+    (fail-closed like py2coq2.regenerate: what cannot be translated becomes a poisoned definition)."""
+    import ast
+    import os
+    from harness import common, py2coq2
+    q, spec = "StatusResponse.issue_instant_ok", issue_instant_spec()
+    failed = []
+    try:
+        with open(os.path.join(env.SRC, "saml2", "response.py")) as f:
+            fn = py2coq2.find_function(ast.parse(f.read()), q)
+        fn = ast.fix_missing_locations(_timetuple_shape().visit(fn))
+        body = py2coq2.translate_def(fn, spec, "saml2/response.py:%s (.timetuple() call shape rewritten by harness/c05.py)" % q)
+    except (py2coq2.Untranslatable, OSError, SyntaxError) as e:
+        failed.append("%s: %s" % (q, e))
+        body = py2coq2.poison(q, spec, str(e))
+    changed = common.write_if_changed(gen_path, py2coq2.HEADER + body)
+    return {"translated": [q], "untranslatable": failed, "changed": changed, "obligations": 1, "discharged": 1 - len(failed)}
+
+
 FIELDS = ["cnb", "cnooa", "snb", "snooa", "sess", "issue"]
 BASE = {"cnb": -300, "cnooa": 300, "snb": None, "snooa": 300, "sess": None, "issue": 0}
 SKEWS = [None, 0, 60, 180]
